@@ -35,7 +35,7 @@ RULE = (
     "status / name / value (bytes, int, None, tuple, float); empty name / value / status, reason-less and body-less "
     "statuses, duplicate names, names with ': '; the eight hop-by-hop names in four letter cases, bare and decorated; "
     "x start_response path {initial, exc_info re-call before output, exc_info re-call after output, header list / "
-    "header item mutated after the call} x body {list, generator, write(), wsgi.file_wrapper} x HTTP/1.0, 1.1 x "
+    "header item mutated after the call, refusal caught by the application which then produces its body} x body {list, generator, write(), wsgi.file_wrapper} x HTTP/1.0, 1.1 x "
     "expose_tracebacks. Oracle: line-level comparison of the emitted head with the program (bipartite matching of "
     "lines to headers) or exact server-500 template + close. distinct = (where, offender class, position, path, body, "
     "version)"
@@ -92,6 +92,7 @@ def required_counters(tier):
         "refuse:crlf-status", "refuse:crlf-name", "refuse:crlf-value",
         "refuse:nonstr-status", "refuse:nonstr-name", "refuse:nonstr-value", "refuse:hop-by-hop",
         "path:initial", "path:exc_info-before-output", "path:exc_info-after-output", "path:late-mutation",
+        "path:swallowed-initial", "path:swallowed-recall", "swallowed:emitted-clean",
         "body:list", "body:generator", "body:write", "body:file_wrapper",
         "version:1.0", "version:1.1", "lines_compared",
     ]
@@ -190,6 +191,20 @@ def make_app(case, log):
             if path == "exc_info-before-output":
                 sr(dec(first["status"]), dec_headers(first["headers"]))
                 return sr(status, list(headers), boom_info())
+            if path == "swallowed-initial":
+                # a defensive application: the refusal is caught and the body produced anyway
+                try:
+                    return sr(status, list(headers))
+                except Exception as e:  # noqa
+                    log["swallowed"] = type(e).__name__
+                    return None
+            if path == "swallowed-recall":
+                w = sr(dec(first["status"]), dec_headers(first["headers"]))
+                try:
+                    sr(status, list(headers), boom_info())
+                except Exception as e:  # noqa
+                    log["swallowed"] = type(e).__name__
+                return w
             if path == "late-mutation":
                 kind = late["kind"]
                 lh = (dec(late["header"][0]), dec(late["header"][1]))
@@ -257,6 +272,8 @@ def make_app(case, log):
     elif body == "write":
         def app(environ, start_response):
             w = call(start_response)
+            if w is None:
+                return [b"hi"]
             w(b"hi")
             return []
     elif body == "file_wrapper":
@@ -530,7 +547,7 @@ def describe(case):
         d["conn"] = case["conn"]
     if case.get("late"):
         d["late"] = case["late"]
-    if case["path"].startswith("exc_info"):
+    if case["path"].startswith("exc_info") or case["path"] == "swallowed-recall":
         d["first"] = case.get("first") or FIRST
     return d
 
@@ -745,6 +762,52 @@ def run_program(acc, case):
                         cmp_violations(c0, status, headers, "unknown")
         elif shape == "empty":
             V("silent-close", "late-mutation program answered by an empty wire (closed=%s)" % res.closed)
+
+    elif path in ("swallowed-initial", "swallowed-recall"):
+        # the refused call was caught by the application, which then produced its body: whatever is
+        # emitted, none of the refused strings may be in it -- the status line is the server default,
+        # the first call's or the (valid) status of the refused call, every other line is the
+        # server's own or a header of an accepted call / a valid header of the refused one
+        acc.count("path:" + path)
+        reasons = must_refuse(status, headers)
+        first = case.get("first") or FIRST
+        f_status, f_headers = dec(first["status"]), dec_headers(first["headers"])
+        if shape == "s500":
+            if refusal([], "swallowed"):
+                acc.count("refused")
+        elif shape == "empty":
+            V("silent-close", "swallowed-refusal program answered by an empty wire (closed=%s)" % res.closed)
+        elif shape == "emitted":
+            lines = head.split(b"\r\n")
+            ok_status = ["200 OK"]
+            if path == "swallowed-recall":
+                ok_status.append(f_status)
+            if isinstance(status, str) and not has_crlf(status):
+                ok_status.append(status)
+            valid = [(k, v) for k, v in headers if not must_refuse("200 OK", [(k, v)])]
+            if path == "swallowed-recall":
+                valid += f_headers
+            if any(b"\r" in ln or b"\n" in ln for ln in lines):
+                V("head-split:swallowed", "bare CR/LF inside the head after a swallowed refusal: %r" % head)
+            st_line = lines[0].decode("latin-1")
+            if st_line not in ["HTTP/%s %s" % (version, x) for x in ok_status]:
+                V("refused-string-emitted:status", "status line %r after the refusal [%s] was swallowed; acceptable %r"
+                  % (lines[0][:100], ",".join(reasons), ok_status))
+            for ln in lines[1:]:
+                name, sep, val = ln.partition(b": ")
+                try:
+                    nm = name.decode("ascii")
+                except UnicodeDecodeError:
+                    nm = None
+                if sep and nm in SERVER_OWN and server_value_ok(nm, val):
+                    continue
+                if any(line_matches(ln.decode("latin-1"), k, v) for k, v in valid):
+                    continue
+                V("refused-string-emitted:header", "line %r after the refusal [%s] was swallowed belongs to no accepted header"
+                  % (ln[:100], ",".join(reasons)))
+            if not viol:
+                acc.count("accepted")
+                acc.count("swallowed:emitted-clean")
 
     elif path == "exc_info-after-output":
         first = case.get("first") or FIRST
@@ -1100,7 +1163,53 @@ def fam_late(tier):
                                      late={"kind": kind, "header": [enc(lh[0]), enc(lh[1])]})
 
 
+def fam_cl_value(tier):
+    """Content-Length (which the server parses itself) with CR / LF around or inside the number"""
+    idx = 0
+    for nm in ("Content-Length", "content-length", "CONTENT-LENGTH", "Content-length"):
+        for dl, df in (("trail-CRLF", lambda n: n + "\r\n"), ("trail-LF", lambda n: n + "\n"), ("trail-CR", lambda n: n + "\r"),
+                       ("lead-CRLF", lambda n: "\r\n" + n), ("lead-LF", lambda n: "\n" + n), ("end-of-head", lambda n: n + "\r\n\r\n"),
+                       ("sp-LF", lambda n: " " + n + " \n"), ("inject", lambda n: n + "\r\nInj-Zq9: 1"), ("mid-LF", lambda n: n + "\n0")):
+            for shape in (0, 1):
+                for path in ("initial", "exc_info-before-output"):
+                    for body in BODIES:
+                        for version in ("1.0", "1.1"):
+                            idx += 1
+                            n = str({"list": 2, "generator": 2, "write": 2, "file_wrapper": 4}[body])
+                            hs = [(nm, df(n))] if shape == 0 else [("A-Zq3", "aZq3"), (nm, df(n)), ("Z-Zq4", "zZq4")]
+                            yield mk("200 Qz", hs, path, body, version, idx % 2 == 0, idx,
+                                     {"fam": "cl-value", "where": "value", "cls": "content-length:" + dl, "pos": shape})
+
+
+def fam_swallowed(tier):
+    """must-refuse programs whose refusal the application catches"""
+    idx = 0
+    bad = [
+        ("crlf-status", "200 Qz\r\nInj-Zq9: 1", [("X-Zq1k", "vZq2wk")]),
+        ("lf-status", "200 Qz\nSet-Cookie: sid=Zq9", [("X-Zq1k", "vZq2wk")]),
+        ("crlfcrlf-status", "200 Qz\r\n\r\n<html>Zq9", []),
+        ("nonstr-status", b"200 Qz", [("X-Zq1k", "vZq2wk")]),
+        ("crlf-value", "200 Qz", [("A-Zq3", "aZq3"), ("X-Zq1k", "vZq2wk\r\nInj-Zq9: 1"), ("Z-Zq4", "zZq4")]),
+        ("crlf-value-first", "200 Qz", [("X-Zq1k", "vZq2wk\r\nInj-Zq9: 1"), ("Z-Zq4", "zZq4")]),
+        ("crlf-name", "200 Qz", [("A-Zq3", "aZq3"), ("X-Zq1k\r\nInj-Zq9", "vZq2wk")]),
+        ("nonstr-value", "200 Qz", [("A-Zq3", "aZq3"), ("X-Zq1k", 5)]),
+        ("hop", "200 Qz", [("A-Zq3", "aZq3"), ("Connection", "close"), ("Z-Zq4", "zZq4")]),
+        ("hop-te", "200 Qz", [("Transfer-Encoding", "chunked")]),
+        ("cl-then-crlf", "200 Qz", [("Content-Length", "@CL"), ("X-Zq1k", "vZq2wk\nInj-Zq9: 1")]),
+    ]
+    for label, status, headers in bad:
+        for path in ("swallowed-initial", "swallowed-recall"):
+            for body in BODIES:
+                for version in ("1.0", "1.1"):
+                    for expose in (False, True):
+                        idx += 1
+                        yield mk(status, fix_cl(headers, body), path, body, version, expose, idx,
+                                 {"fam": "swallowed", "where": "second" if path.endswith("recall") else "initial", "cls": label, "pos": 0})
+
+
 def programs(tier, seed):
+    yield from fam_cl_value(tier)
+    yield from fam_swallowed(tier)
     yield from fam_single(tier)
     yield from fam_double(tier, seed)
     yield from fam_nonstr(tier)
